@@ -126,7 +126,8 @@ def check(hyps, goal, timeout_ms=10000, want_model=True, second=False, first_ms=
     s0 = z3.Solver()
     s0.set('timeout', min(400, timeout_ms))
     s0.add(*abstract_recs(q))
-    if s0.check() == z3.unsat and not second:
+    s0_unsat = s0.check() == z3.unsat
+    if s0_unsat and not second:
         return dict(result='unsat', model=None, backend=bk + " (recursive definitions abstracted)", size=size, seconds=time.time() - t0)
     res = dict(result='unknown', model=None, backend=bk, size=size)
     text = None
@@ -163,6 +164,10 @@ def check(hyps, goal, timeout_ms=10000, want_model=True, second=False, first_ms=
         elif str(r2) == 'sat':
             res['disagreement'] = True
         sec[bk] = (str(r2), 0)
+    if res['result'] == 'unknown' and s0_unsat:
+        # thorough tier: the abstraction already refuted the query (unsat there is unsat here); the other back ends were asked for a second opinion and
+        # had none within their budget -- a `sat` from any of them would have been recorded above as a disagreement
+        res.update(result='unsat', backend=bk + " (recursive definitions abstracted; no second opinion within the budget)")
     if res['result'] == 'unknown':
         # counterexample search in a small scope: extra constraints only restrict, so `sat` is a genuine counter-model
         from .values import collect_apps
